@@ -15,6 +15,8 @@ import numpy as np
 from checks import _transforms as H
 
 ID = "C02"
+# computational entry points whose results are watched by the engine's retained-result oracle (mc/explore.py)
+RETAIN = [('hydrodiy.stat.transform', 'Transform.forward'), ('hydrodiy.stat.transform', 'Transform.jacobian')]
 RULE = ("same configurations as C01 (class x constructor options x parameter/constant lattice with all "
         "bounds, defaults, branch values; <= 3 deviations quick, full product thorough) x the same x-lattice. "
         "At every in-scope point (documented domain, stated conditioning region, textbook float64 reference "
